@@ -1860,7 +1860,7 @@ Proof.
   intros HLb. unfold S_goal.
   intros infun top inloop Hsup Hf Hp L d U E fs pos lc code L' U' E' fs' st st' base pre Hn Hc Hpre.
   cbn [sup] in Hsup. cbn [ScopeDefs5.stmt7] in Hf. cbn [stmt_repr_ok] in Hp.
-  apply andb_prop in Hp as [Hp Hpb]. apply andb_prop in Hp as [Hp Hpn]. apply andb_prop in Hp as [_ Hp0].
+  apply andb_prop in Hp as [Hp Hpb0]. apply andb_prop in Hp as [Hp Hpn]. apply andb_prop in Hp as [_ Hp0].
   rewrite ScopeFacts5.nstmt_loop in Hn.
   destruct (SC.dup_in_scope L i (S d)); [discriminate|].
   destruct (Nat.eqb (length L) (SC.c_locals_max cf)); [discriminate|].
@@ -1979,7 +1979,91 @@ Proof.
   pose proof (S_postT_seq' _ _ _ _ _ _ _ _ _ _ _ _ _ _ _ _ _ _ _ _ _ _ _ _ _ _ Q5 P6 ltac:(possolve)) as Q6.
   pose proof (S_postT_seq' _ _ _ _ _ _ _ _ _ _ _ _ _ _ _ _ _ _ _ _ _ _ _ _ _ _ Q6 P7 ltac:(possolve)) as Q7.
   pose proof (S_postT_seq' _ _ _ _ _ _ _ _ _ _ _ _ _ _ _ _ _ _ _ _ _ _ _ _ _ _ Q7 P8 ltac:(possolve)) as Ppre.
-  admit_placeholder.
+  (* the position of the loop head *)
+  match type of Hp10 with S_pre _ _ _ _ _ _ ?q _ _ _ _ _ => assert (Hq : q = start) by (unfold start, SN.loop_pre; possolve); rewrite Hq in Hp10 end.
+  (* push_loop *)
+  unfold push_loop, upd in Hpush. inversion Hpush; subst sp. clear Hpush.
+  set (sp := mkS (with_loops (s_cur s10) ((length (k_code (s_cur s10)), k_scope (s_cur s10), k_try_depth (s_cur s10)) :: k_loops (s_cur s10))
+                             ([] :: k_breaks (s_cur s10))) (s_outer s10) (s_classes s10) (s_line s10)) in *.
+  assert (Hsim : sim_loop s10 sp) by (repeat split).
+  assert (Hpsp : S_pre sp Lh (S d) U E fs start (Some lc') base pre infun true).
+  { destruct Hp10. constructor; [exact p_L0|exact p_U0|exact p_E0|exact p_d0|exact p_pos0|exact p_num0|exact p_base0|exact p_fun0| |exact p_len0].
+    unfold lcrel. exists (k_try_depth (s_cur s10)), (k_loops (s_cur s10)), [], (k_breaks (s_cur s10)).
+    cbn [sp s_cur k_loops k_breaks k_try_depth k_code with_loops lc' SN.lc_start SN.lc_depth].
+    rewrite <- p_pos0, p_d0. repeat split; auto. }
+  (* IterNext; SetLocal loop_var; JumpIfStopIter; Pop *)
+  apply emit_op_e in Hin.
+  pose proof (bytes_piece [opb OpIterNext] [SC.IIterNext] _ _ _ _ _ _ _ _ _ _ _ _ _ Hin ltac:(intros; apply crel_one; one_simple) Hpsp) as Pa.
+  pose proof (S_pre_nextT _ _ _ _ _ _ _ _ _ _ _ _ _ _ _ _ _ _ _ _ _ _ Hpsp Pa) as Hpa.
+  apply emit_op8_e in Hsl2.
+  assert (Hlv256 : (N.of_nat lv mod 256 = N.of_nat lv)%N) by (apply N.mod_small; lia).
+  rewrite Hlv256 in Hsl2.
+  pose proof (bytes_piece [opb OpSetLocal; N.of_nat lv] [SC.ISetLocal lv] _ _ _ _ _ _ _ _ _ _ _ _ _ Hsl2
+                ltac:(intros; apply crel_one; split; [reflexivity|]; intros r0; cbn; rewrite Nat2N.id; reflexivity) Hpa) as Pb.
+  pose proof (S_pre_nextT _ _ _ _ _ _ _ _ _ _ _ _ _ _ _ _ _ _ _ _ _ _ Hpa Pb) as Hpb.
+  set (vj := 1 + szb + 3).
+  destruct (jump_piece OpJumpIfStopIter SC.IJumpIfStopIter _ _ _ _ _ _ _ _ _ _ _ _ _ _ _ vj
+              (fun KS FM => proj1 (proj2 (proj2 (one_jumps KS FM vj)))) Hj Hpb) as (Hpj1 & Pc).
+  pose proof (S_pre_nextT _ _ _ _ _ _ _ _ _ _ _ _ _ _ _ _ _ _ _ _ _ _ Hpb Pc) as Hpc.
+  apply emit_op_e in Hpop1.
+  pose proof (bytes_piece [opb OpPop] [SC.IPop] _ _ _ _ _ _ _ _ _ _ _ _ _ Hpop1 ltac:(intros; apply crel_one; one_simple) Hpc) as Pd.
+  pose proof (S_pre_nextT _ _ _ _ _ _ _ _ _ _ _ _ _ _ _ _ _ _ _ _ _ _ Hpc Pd) as Hpd.
+  (* the body *)
+  match type of Hpd with S_pre _ _ _ _ _ _ ?q _ _ _ _ _ => assert (Hq2 : q = posb) by (unfold posb, SN.loop_head; possolve); rewrite Hq2 in Hpd end.
+  pose proof (blk_ok b _ _ _ _ _ _ _ _ _ _ _ _ _ _ _ _ _ _ _ _ _ _ HLb Hsup Hf Hpb0 Eb Hbs2 Hbb Hes1 Hpd) as Pe.
+  destruct Pe as (Tb & mb & klb & Nb & Pe).
+  pose proof (S_pre_nextT _ _ _ _ _ _ _ _ _ _ _ _ _ _ _ _ _ _ _ _ _ _ Hpd Pe) as Hpe.
+  destruct (S_postT_len _ _ _ _ _ _ _ _ _ _ _ _ _ _ _ Pe) as (Hlb & _).
+  (* Loop *)
+  apply emit_loop_e in Hel. rewrite <- (p_pos _ _ _ _ _ _ _ _ _ _ _ _ Hpe) in Hel.
+  cbn [sp s_cur k_code with_loops] in Hel. rewrite <- (p_pos _ _ _ _ _ _ _ _ _ _ _ _ Hp10) in Hel.
+  replace (posb + SC.code_size cblock + 1 - start + 2) with (SC.code_size (SN.loop_head lv 0) + szb + 3) in Hel
+    by (unfold posb; rewrite Hszb; lia).
+  pose proof (bytes_piece _ [SC.ILoop (SC.code_size (SN.loop_head lv 0) + szb + 3)] _ _ _ _ _ _ _ _ _ _ _ _ _ Hel
+                ltac:(intros; apply crel_one; apply one_jumps) Hpe) as Pf.
+  rewrite <- Hq2 in Pe.
+  pose proof (S_postT_seq' _ _ _ _ _ _ _ _ _ _ _ _ _ _ _ _ _ _ _ _ _ _ _ _ _ _ Pa Pb ltac:(possolve)) as R2.
+  pose proof (S_postT_seq' _ _ _ _ _ _ _ _ _ _ _ _ _ _ _ _ _ _ _ _ _ _ _ _ _ _ R2 Pc ltac:(possolve)) as R3.
+  pose proof (S_postT_seq' _ _ _ _ _ _ _ _ _ _ _ _ _ _ _ _ _ _ _ _ _ _ _ _ _ _ R3 Pd ltac:(possolve)) as R4.
+  pose proof (S_postT_seq' _ _ _ _ _ _ _ _ _ _ _ _ _ _ _ _ _ _ _ _ _ _ _ _ _ _ R4 Pe ltac:(possolve)) as R5.
+  pose proof (S_postT_seq' _ _ _ _ _ _ _ _ _ _ _ _ _ _ _ _ _ _ _ _ _ _ _ _ _ _ R5 Pf ltac:(rewrite <- Hq2; possolve)) as R6.
+  (* patch the JumpIfStopIter *)
+  set (Bl := opb OpLoop :: u16le (SC.code_size (SN.loop_head lv 0) + szb + 3)) in *.
+  eapply (S_postT_eq _ ((map IB [opb OpIterNext] ++ map IB [opb OpSetLocal; N.of_nat lv] ++ [IB (opb OpJumpIfStopIter)])
+                         ++ IJ pj vj :: (map IB [opb OpPop] ++ Tb ++ map IB Bl))) in R6;
+    [|repeat rewrite <- app_assoc; reflexivity|reflexivity].
+  pose proof (resolve_piece _ _ _ _ _ _ _ _ _ _ _ _ _ _ _ _ _ _ _ _ R6 (p_pos _ _ _ _ _ _ _ _ _ _ _ _ Hpsp) Hpj
+                ltac:(rewrite !raw_app, !app_length, !raw_IB, Hlb; unfold vj, Bl, u16le; cbn [length]; rewrite Hszb; lia)) as R7.
+  pose proof (S_pre_nextT _ _ _ _ _ _ _ _ _ _ _ _ _ _ _ _ _ _ _ _ _ _ Hpsp R7) as Hpg.
+  apply emit_op_e in Hpop2.
+  pose proof (bytes_piece [opb OpPop] [SC.IPop] _ _ _ _ _ _ _ _ _ _ _ _ _ Hpop2 ltac:(intros; apply crel_one; one_simple) Hpg) as Ph.
+  pose proof (S_postT_seq' _ _ _ _ _ _ _ _ _ _ _ _ _ _ _ _ _ _ _ _ _ _ _ _ _ _ R7 Ph ltac:(possolve)) as R8.
+  destruct (S_postT_len _ _ _ _ _ _ _ _ _ _ _ _ _ _ _ R8) as (_ & Hlen8).
+  (* pop_loop: the pending breaks of the body get the distance to here *)
+  assert (Hex : SN.lc_exit lc' = length (k_code (s_cur sq))).
+  { rewrite Hlen8, <- (p_pos _ _ _ _ _ _ _ _ _ _ _ _ Hpsp). cbn [lc' SN.lc_exit]. unfold posb, SN.loop_head.
+    repeat rewrite ScopeSim.code_size_app. cbn [SC.code_size SC.isize]. rewrite <- Hszb. lia. }
+  assert (HnT8 : noIJ ((((map IB [opb OpIterNext] ++ map IB [opb OpSetLocal; N.of_nat lv] ++ [IB (opb OpJumpIfStopIter)]) ++
+                          IB (N.modulo (N.of_nat vj) 256) :: IB (N.div (N.of_nat vj) 256) :: map IB [opb OpPop] ++ Tb ++ map IB Bl)) ++ map IB [opb OpPop])).
+  { unfold noIJ in *.
+    repeat (first [assumption | apply Forall_app; split | apply Forall_cons; [exact I|] | apply Forall_nil | apply noIJ_IB]). }
+  pose proof (pop_loop_ok _ _ _ _ _ _ sr _ _ _ lc _ _ _ _ _ _ _ _ R8 HnT8 (p_pos _ _ _ _ _ _ _ _ _ _ _ _ Hpsp) Hsim eq_refl eq_refl Hpl Hex) as Pm.
+  (* the scope of the loop ends *)
+  pose proof (S_pre_nextT _ _ _ _ _ _ _ _ _ _ _ _ _ _ _ _ _ _ _ _ _ _ Hp10 Pm) as Hpr.
+  pose proof (end_scope_e _ _ _ _ d Hes2 (p_d _ _ _ _ _ _ _ _ _ _ _ _ Hpr)) as Hs5.
+  pose proof (p_L _ _ _ _ _ _ _ _ _ _ _ _ Hpr) as HLr.
+  destruct (scope_end_agree [] [] d _ _ HLr) as (_ & Hlen).
+  assert (HL5 : Lrel (skipn (length ops) L1) (skipn (length (scope_end_ops d (k_locals (s_cur sr)))) (k_locals (s_cur sr)))).
+  { unfold ops. rewrite <- Hlen. now apply Lrel_skipn. }
+  pose proof (step_piece _ ops _ _ _ _ _ _ _ _ _ _ _ _ _ _ _ _ Hs5 HL5 ltac:(rewrite skipn_length; pose proof (p_len _ _ _ _ _ _ _ _ _ _ _ _ Hpr); lia)
+                ltac:(intros KS FM; now apply scope_end_agree) Hpr) as Pes.
+  pose proof (S_postT_seq' _ _ _ _ _ _ _ _ _ _ _ _ _ _ _ _ _ _ _ _ _ _ _ _ _ _ Ppre Pm ltac:(unfold start, SN.loop_pre; possolve)) as F1.
+  pose proof (S_postT_seq' _ _ _ _ _ _ _ _ _ _ _ _ _ _ _ _ _ _ _ _ _ _ _ _ _ _ F1 Pes ltac:(unfold start, SN.loop_pre; possolve)) as F2.
+  eexists _, _, _. split; cycle 1.
+  - eapply S_postT_eq; [reflexivity| |exact F2].
+    unfold SN.loop_pre, SN.loop_head, vj. repeat rewrite app_nil_r. repeat rewrite <- app_assoc. cbn [app]. reflexivity.
+  - unfold noIJ in *.
+    repeat (first [assumption | apply Forall_app; split | apply Forall_cons; [exact I|] | apply Forall_nil | apply noIJ_IB]).
 Qed.
 
 Lemma S_all : forall s, S_goal s.
@@ -2315,6 +2399,67 @@ Proof.
 Qed.
 
 Print Assumptions C06_full_compile_scope_correct_stage5_sup_partial.
+
+(* every statement of the stage-5 fragment is covered by the induction *)
+Lemma stmt7_sup : forall s j i t l, ScopeDefs5.stmt7 j i t l s = true -> sup s = true.
+Proof.
+  assert (G : forall b, Forall (fun s => forall j i t l, ScopeDefs5.stmt7 j i t l s = true -> sup s = true) b ->
+              forall j i t l, forallb (ScopeDefs5.stmt7 j i t l) b = true -> forallb sup b = true).
+  { induction 1 as [|a r Ha Hr IH]; intros j i t l Hf; [reflexivity|]. cbn [forallb] in *. apply andb_prop in Hf as [H1 H2].
+    rewrite (Ha _ _ _ _ H1), (IH _ _ _ _ H2). reflexivity. }
+  induction s using ScopeCompN.stmt_nind; intros j0 i0 t0 l0 Hs; cbn [ScopeDefs5.stmt7 sup] in *; try reflexivity; try discriminate.
+  - exact (G _ H _ _ _ _ Hs).
+  - exact (G _ H _ _ _ _ Hs).
+  - apply andb_prop in Hs as [Hs _]. exact (G _ H _ _ _ _ Hs).
+  - exact (G _ H _ _ _ _ Hs).
+  - apply andb_prop in Hs as [Hs He]. apply andb_prop in Hs as [_ Ht]. rewrite (G _ H _ _ _ _ Ht), (G _ H0 _ _ _ _ He). reflexivity.
+  - apply andb_prop in Hs as [Hb Hh]. rewrite (G _ H _ _ _ _ Hb), (G _ H0 _ _ _ _ Hh). reflexivity.
+Qed.
+
+(* THE BRIDGE, the whole stage-5 fragment: whenever compile_scope accepts a program of the fragment and the full compiler
+   model accepts its translation (it rejects only when one of its size limits is exceeded: > 65536 constants, jumps
+   > 65535 bytes, > 255 arguments / parameters - limits compile_scope does not have), FullCompile's function TREE decodes,
+   function by function in finalise order, to exactly compile_scope's function table. *)
+Theorem bridge_C06_stage5 : forall cf p funs f,
+  SC.c_catch_pops cf = false -> SC.c_break_pops_first cf = true ->
+  forallb (ScopeDefs5.stmt7 true false true false) p = true -> repr_ok p = true ->
+  SC.compile_scope cf p = Some funs -> compile_program (tr_prog p) = COk f ->
+  decode_tree f = Some funs.
+Proof.
+  intros cf p funs f Hcp Hbp H7 Hr Hcs Hc. apply (bridge_C06_sup_partial cf Hcp p funs f Hbp); auto.
+  clear -H7. induction p as [|a r IH]; [reflexivity|]. cbn [forallb] in *. apply andb_prop in H7 as [H1 H2].
+  rewrite (stmt7_sup _ _ _ _ _ H1), (IH H2). reflexivity.
+Qed.
+
+Print Assumptions bridge_C06_stage5.
+
+(* the stage-5 correctness theorem as a statement about the decoded output of the FULL compiler model *)
+Theorem C06_full_compile_scope_correct_stage5 : forall p funs f fuel st en c,
+  forallb (ScopeDefs5.stmt7 true false true false) p = true -> repr_ok p = true ->
+  SC.compile_scope ScopeRun.the_cfg p = Some funs -> compile_program (tr_prog p) = COk f ->
+  SL.exec_list fuel p [] true SL.s_empty = (st, en, c) -> (c = SL.CNorm \/ exists v, c = SL.CThrow v) ->
+  exists funs', decode_tree f = Some funs' /\
+    exists n, forall k, SC.Gen.run_funs SC.bk_m ScopeRun.the_cfg (n + k) funs' = SL.eval_cells_fuel fuel p.
+Proof.
+  intros p funs f fuel st en c H7 Hp Hcs Hcp He Hc.
+  exists funs. split; [exact (bridge_C06_stage5 ScopeRun.the_cfg p funs f eq_refl eq_refl H7 Hp Hcs Hcp)|].
+  exact (ScopeStage5.compile_scope_correct_stage5 ScopeRun.the_cfg p funs fuel st en c eq_refl eq_refl eq_refl H7 Hcs He Hc).
+Qed.
+
+Print Assumptions C06_full_compile_scope_correct_stage5.
+
+(* the example of FullBridgeC06.v (closure over a try-block local, `for` with continue and a break that pops a local, try / catch)
+   and ScopeStage5.stage5_example (7 functions) through the theorem *)
+Example bridge_stage5_examples :
+  (exists funs f, SC.compile_scope ScopeRun.the_cfg ScopeStage5.stage5_example = Some funs /\
+                  compile_program (tr_prog ScopeStage5.stage5_example) = COk f /\ decode_tree f = Some funs /\ length funs = 7).
+Proof.
+  destruct (SC.compile_scope ScopeRun.the_cfg ScopeStage5.stage5_example) as [funs|] eqn:Es; [|vm_compute in Es; discriminate].
+  destruct (compile_program (tr_prog ScopeStage5.stage5_example)) as [f|l m] eqn:Ef; [|vm_compute in Ef; discriminate].
+  exists funs, f. split; [reflexivity|]. split; [reflexivity|]. split.
+  - exact (bridge_C06_stage5 ScopeRun.the_cfg ScopeStage5.stage5_example funs f eq_refl eq_refl eq_refl ltac:(vm_compute; reflexivity) Es Ef).
+  - vm_compute in Es. inversion Es; subst funs. reflexivity.
+Qed.
 
 (* the hypotheses are satisfiable: three function levels, a body local captured by an inner function, a variable of
    the outermost function captured through the middle one, a self-recursive local fn, blocks, return, throw *)
